@@ -1,6 +1,7 @@
 // xlate/c04 — tie A for property C04.
 //
-// Lists every `make(T, n)` of the decoding packages whose size expression flows, inside the same
+// Lists every `make(T, n)` (and every constructor call `New…(n)` / `Create…(n)` that sizes a table)
+// of the decoding packages whose size expression flows, inside the same
 // function, from the result of a `Read*` call on the input stream, and whether a guard
 // (`CheckCount(n, …)` or an `if` comparing n with Available()/buffer.Len() that panics) precedes
 // it in an enclosing block.  Also extracts whether `DataInputX.ReadBytes` compares its size with
@@ -179,6 +180,27 @@ func (st *fnState) makesIn(n ast.Node, guarded map[string]bool) {
 		if !ok {
 			return true
 		}
+		// constructors that size a table from their argument: New…(n, …) / Create…(n)
+		if name := calleeName(c); (strings.HasPrefix(name, "New") || strings.HasPrefix(name, "Create")) && collectionName(name) && len(c.Args) >= 1 {
+			for _, a := range c.Args {
+				if _, isCall := a.(*ast.CallExpr); isCall && readSource(a) == "" {
+					continue
+				}
+				src := ""
+				root := ""
+				if id, ok := a.(*ast.Ident); ok {
+					if s, ok := st.source[id.Name]; ok {
+						src, root = s, st.root[id.Name]
+					}
+				}
+				if src == "" || src == "parameter" {
+					continue
+				}
+				sites = append(sites, site{st.file, st.fn, "call:" + name, src, root != "" && guarded[root]})
+				break
+			}
+			return true
+		}
 		f, ok := c.Fun.(*ast.Ident)
 		if !ok || f.Name != "make" || len(c.Args) < 2 {
 			return true
@@ -327,6 +349,26 @@ func readsStream(fd *ast.FuncDecl) bool {
 		}
 	}
 	return false
+}
+
+// collectionName: constructors of containers (their integer argument is a capacity)
+func collectionName(name string) bool {
+	for _, w := range []string{"Map", "List", "Set", "Table", "Array", "Queue"} {
+		if strings.Contains(name, w) {
+			return true
+		}
+	}
+	return false
+}
+
+func calleeName(c *ast.CallExpr) string {
+	switch f := c.Fun.(type) {
+	case *ast.Ident:
+		return f.Name
+	case *ast.SelectorExpr:
+		return f.Sel.Name
+	}
+	return ""
 }
 
 func lit(s string) string { return "\"" + strings.ReplaceAll(s, "\"", "\\\"") + "\"" }
